@@ -40,14 +40,13 @@ Definition opt_sp_agrees (obs model : option (sparse Z)) : bool :=
   | _, _ => false
   end.
 
-(* random sparse generator on captured draws: raw equality (stored order included) + number of draws consumed *)
+(* random sparse generator on captured draws, for a normalised request (saturated, nz): raw equality (stored order
+   included) + number of draws consumed (a saturated request consumes none) *)
 Definition zsprand := @sprand Z.
-Definition sprand_agrees (nz : nat) (s : shape) (draws : list (list (list Z))) (vals : list Z) (ndraws : nat)
+Definition zsprand_req := @sprand_req Z.
+Definition sprand_agrees (sat : bool) (nz : nat) (s : shape) (draws : list (list (list Z))) (vals : list Z) (ndraws : nat)
            (obs : sparse Z) : bool :=
-  sp_raw_eqb obs (zsprand nz s draws vals) && Nat.eqb ndraws (sprand_consumed nz s draws).
-(* what the property asks of the result, independent of the algorithm *)
-Definition sprand_spec (nz : nat) (s : shape) (obs : sparse Z) : bool :=
-  wf_spb zisz obs && nvec_eqb (sshape obs) s && Nat.eqb (nnz obs) nz.
+  sp_raw_eqb obs (zsprand_req sat nz s draws vals) && Nat.eqb ndraws (sprand_req_consumed sat nz s draws).
 Definition onat_eqb := opt_eqb Nat.eqb.
 
 (* teneye: A[i] = teneye_count i / m!  (observed entries are floats: compared within 1e-9) *)
@@ -71,28 +70,22 @@ Definition teneye_identity_ok (A : dense Qc) (m n : nat) (x : list Qc) : bool :=
 
 (* ---- whole-call checks for sptensor.from_function / sptenrand (request normalisation included) ---- *)
 Inductive sobs := SRej | SCrash | SOk (o : sparse Z).
-(* the trigger region of the one OPEN finding, computed from the case itself:
-   C20-N3 — the request equals the tensor size: the code rejects what the property admits (impl None, spec Some) *)
-Definition n3_region (cnt_impl cnt_spec : option nat) : bool :=
-  match cnt_impl, cnt_spec with None, Some _ => true | _, _ => false end.
-(* pyttb must agree with the faithful model of the REPAIRED code (request normalisation, redraw loop on the captured
-   draws with the union of all consumed draws as a fallback (repair of A-46), raw stored lists, number of draws
-   consumed; a zero count gives the empty tensor).  Only inside the trigger region of the open finding C20-N3 is the
-   property's own requirement accepted as an alternative (a repaired pyttb stays silent there): well-formed, requested
-   shape, exactly the requested number of nonzeros. *)
-Definition sprand_call_ok (cnt_impl cnt_spec : option nat) (s : shape) (draws : list (list (list Z))) (vals : list Z)
+(* pyttb must agree with the faithful model of the code as repaired (request normalisation incl. the saturated branch of
+   /repo 2b4b024, redraw loop on the captured draws with the union of all consumed draws as a fallback (repair of A-46),
+   raw stored lists, number of draws consumed; a zero count gives the empty tensor).  ONE accepted behaviour: there is
+   no open finding and no either-or region any more (C20-N3 is repaired; n3_region is gone).
+   Order 0 (the empty shape, one cell): the sparse constructor cannot hold a subscript row of width zero, so a request
+   that normalises to a positive count is rejected (as sptendiag with elements and the empty shape, C20_sptendiag_request);
+   a request that normalises to zero gives the empty order-0 tensor *)
+Definition order0_positive (s : shape) (nz : nat) : bool := Nat.eqb (length s) 0 && Nat.ltb 0 nz.
+Definition sprand_call_ok (cnt_impl : option (bool * nat)) (s : shape) (draws : list (list (list Z))) (vals : list Z)
            (ndraws : nat) (obs : sobs) : bool :=
   match cnt_impl, obs with
   | None, SRej => true
-  | Some nz, SOk o => sprand_agrees nz s draws vals ndraws o
+  | Some (sat, nz), SRej => order0_positive s nz
+  | Some (sat, nz), SOk o => negb (order0_positive s nz) && sprand_agrees sat nz s draws vals ndraws o
   | _, _ => false
-  end
-  || (n3_region cnt_impl cnt_spec &&
-      match cnt_spec, obs with
-      | None, SRej => true
-      | Some nz, SOk o => sprand_spec nz s o
-      | _, _ => false
-      end).
+  end.
 
 (* ---- ill-formed requests (sizes as Z: negative sizes can be written down) ---- *)
 Definition zshape_ok (s : list Z) : bool := forallb (fun d => (0 <=? d)%Z) s.
